@@ -550,3 +550,28 @@ package consensus
 //@   ensures @U-revised-once result == nil && 0 <= k && k < l && l < len(txn.FileContractRevisions) ==> txn.FileContractRevisions[k].Parent.ID != txn.FileContractRevisions[l].Parent.ID
 //@   ensures @F5-revision-rules result == nil && 0 <= k && k < len(txn.FileContractRevisions) ==> fcr.Parent.V2FileContract.ProofHeight >= cheight(ms.base) && curRev(*ms, fcr.Parent).ProofHeight >= cheight(ms.base) && CVRevisionValues(curRev(*ms, fcr.Parent), fcr.Revision) && fcr.Revision.ProofHeight >= cheight(ms.base)
 //@   ensures @K5-revision-signed-by-current-keys result == nil && 0 <= k && k < len(txn.FileContractRevisions) ==> sigsOK(ms.base, fcr.Revision, curRev(*ms, fcr.Parent).RenterPublicKey, curRev(*ms, fcr.Parent).HostPublicKey)
+
+// ------------------------------------------------------------ validation.go: miner payouts (C01: fees reappear exactly in the payout)
+
+//@ spec rec sumTxnFees(txns []types.Transaction, n int) int = n <= 0 ? 0 : sumTxnFees(txns, n-1) + sumCur(txns[n-1].MinerFees, len(txns[n-1].MinerFees))
+//@ spec rec sumV2Fees(txns []types.V2Transaction, n int) int = n <= 0 ? 0 : sumV2Fees(txns, n-1) + types.u128(txns[n-1].MinerFee)
+
+//@ func (State).BlockReward
+//@   prop C01
+//@   requires s.Network != nil
+//@   let sub = (cheight(s) % 2^32) * 10^24
+//@   ensures @schedule types.u128(result) == ((types.u128(s.Network.InitialCoinbase) < sub || types.u128(s.Network.InitialCoinbase) - sub < types.u128(s.Network.MinimumCoinbase)) ? types.u128(s.Network.MinimumCoinbase) : types.u128(s.Network.InitialCoinbase) - sub)
+
+//@ func validateMinerPayouts
+//@   prop C01 C10
+//@   requires s.Network != nil
+//@   ghost k int
+//@   let reward = types.u128(s.BlockReward())
+//@   invariant loop#1 @fees types.u128(expectedSum) == types.u128(s.BlockReward()) + sumTxnFees(b.Transactions, $n)
+//@   invariant loop#2 @fees types.u128(expectedSum) == types.u128(s.BlockReward()) + sumTxnFees(b.Transactions, $n1) + sumCur(txn.MinerFees, $n)
+//@   invariant loop#3 @fees types.u128(expectedSum) == types.u128(s.BlockReward()) + sumTxnFees(b.Transactions, len(b.Transactions)) + sumV2Fees(b.V2.Transactions, $n)
+//@   invariant loop#4 @payouts types.u128(sum) == sumSCO(b.MinerPayouts, $n)
+//@   invariant loop#4 @nonzero 0 <= k && k < $n ==> types.u128(b.MinerPayouts[k].Value) != 0
+//@   ensures @BP-payout-equals-reward-plus-fees result == nil ==> sumSCO(b.MinerPayouts, len(b.MinerPayouts)) == reward + sumTxnFees(b.Transactions, len(b.Transactions)) + (b.V2 != nil ? sumV2Fees(b.V2.Transactions, len(b.V2.Transactions)) : 0)
+//@   ensures @BP-nonzero result == nil && 0 <= k && k < len(b.MinerPayouts) ==> types.u128(b.MinerPayouts[k].Value) != 0
+//@   ensures @BP-single-v2-payout result == nil && b.V2 != nil ==> len(b.MinerPayouts) == 1
